@@ -57,6 +57,14 @@ def observe(pool, mask):
                 v.width
         except Exception:  # noqa
             pass
+        if mask == "all":
+            # every other read-only view and query of the public API
+            for q in (lambda: repr(v), lambda: hash(v), lambda: dict(v.shared_atts), lambda: list(v.divides), lambda: v.width_at_offset(len(v)), lambda: v.width_at_offset(len(v) + 5),
+                      lambda: v.width_at_offset(0), lambda: v == v, lambda: v.s.upper(), lambda: list(v.chunks), lambda: bool(v)):
+                try:
+                    q()
+                except Exception:  # noqa
+                    pass
 
 
 def rebuilt_views(v):
@@ -132,6 +140,12 @@ def build_ops():
         ("v[1:1].join([v,v])", lambda v: [v[1:1].join([v, v])]),
         ("(v*0).join([v,'k'])", lambda v: [(v * 0).join([v, "k"])]),
         ("v*-2", lambda v: [v * -2, v * -1]),
+        ("append(str with SGR)", lambda v: [v.append("\x1b[34mz\x1b[39m"), v.append("p\x1b[1mq")]),
+        ("splice(str with SGR,1)", lambda v: [v.splice("\x1b[34mz\x1b[39m", 1), v.splice("\x1b[31mr\x1b[0m", 0, 2)]),
+        ("v + str with SGR", lambda v: [v + "\x1b[34mz\x1b[39m", "\x1b[4mu\x1b[24m" + v]),
+        ("copy_with_new_str(str with SGR)", lambda v: [v.copy_with_new_str("\x1b[34mz\x1b[39m")]),
+        ("setitem(str with SGR)", lambda v: [v.setitem(0, "\x1b[34mz\x1b[39m")]),
+        ("ljust/rjust", lambda v: [v.ljust(len(v) + 2, "."), v.rjust(len(v) + 3)]),
         ("v.join([str pieces with non-SGR escape sequences])", lambda v: [v.join([v, "\x1b[?25lp", "\x1bMq"]), v.join(["\x1b]0;t\x07r", "\x9b1ms", "\x1b[31"])]),
     ]
     B = [
